@@ -304,8 +304,212 @@ def radii_violation(lengths, corners, removed):
     return None
 
 
+def thaw_origin(origin):
+    return tuple((Fraction(v), u) for v, u in origin)
+
+
+def thaw_fns(fns):
+    out = []
+    for name, args in fns:
+        if name == 'translate':
+            out.append((name, tuple((Fraction(v), u) for v, u in args)))
+        else:
+            out.append((name, tuple(Fraction(v) for v in args)))
+    return out
+
+
 def frac_list(values):
     return [Fraction(v) for v in values]
+
+
+# ---------------------------------------------------------------------------------------------------
+# ToUnicode map-back
+
+TEXT_WORDS = ['office', 'waffle', 'fjord', 'Hello,', 'wörld!', 'naïve', 'façade', 'Ångström', 'señor', 'straße',
+              '“quoted”', '—', '½', '1/2', 'x-ray', 'A&B', 'über', 'fi', 'ffl', 'ff', 'Zoë', 'déjà', 'vu', '100%',
+              '(a)', '[b]', 'c;d', 'e:f', 'µ', 'Ω', '≤', 'a b', 'K', 'Δ', '∆', 'Å']
+PLAIN_WORDS = ['abc', 'def', 'g', 'hi jk', 'lmnop', 'qrs tuv', 'wxyz']
+
+
+GLYPH_POOL = ([chr(c) for c in range(33, 127) if chr(c) not in '<>&'] + [chr(c) for c in range(0xa1, 0x100) if c != 0xad] +
+              [chr(c) for c in range(0x391, 0x3ca) if c != 0x3a2] + [chr(c) for c in range(0x410, 0x450)])
+
+
+def text_document(rng, many_glyphs=None):
+    parts = ['<style>@page{size:400px 600px;margin:10px}body{margin:0;font-size:10px;line-height:12px}</style>']
+    if many_glyphs:
+        # more distinct glyphs in one font than one `beginbfchar` batch (100) holds
+        chars = rng.sample(GLYPH_POOL, many_glyphs)
+        words = [''.join(chars[i:i + 7]) for i in range(0, len(chars), 7)]
+        parts.append(f'<p>{" ".join(words)}</p>')
+        return ''.join(parts)
+    for _ in range(rng.randrange(1, 6)):
+        style = rng.choice(['', 'font-weight:bold', 'font-style:italic', 'opacity:0.5', 'font-size:14px',
+                            'text-align:right', 'letter-spacing:1px', 'word-spacing:3px', 'text-align:justify'])
+        inner = []
+        for _ in range(rng.randrange(1, 12)):
+            roll = rng.random()
+            if roll < 0.7:
+                inner.append(rng.choice(TEXT_WORDS))
+            elif roll < 0.85:
+                inner.append(f'<span style="font-family:weasyprint">{rng.choice(PLAIN_WORDS)}</span>')
+            else:
+                inner.append(f'<b>{rng.choice(TEXT_WORDS)}</b>')
+        parts.append(f'<p style="{style}">{" ".join(inner)}</p>')
+    return ''.join(parts)
+
+
+def tounicode_cases(html):
+    """-> [(cmap entries, glyphs, text, note)] for every text run of the painted document."""
+    from weasyprint.formatting_structure import boxes
+    document = scene.render(html)
+    streams = scene.paint_all(document)
+    cmaps = scene.written_cmaps(document)
+    cases = []
+    for stream, page in zip(streams, document.pages):
+        text_boxes = [box for box in page._page_box.descendants() if isinstance(box, boxes.TextBox)]
+        for x, y, segments in scene.text_runs(stream):
+            fx, fy = float(x), float(y)
+            candidates = [box for box in text_boxes
+                          if abs(box.position_x - fx) < 1e-4 and abs(box.position_y + box.baseline - fy) < 1e-4]
+            if not candidates:
+                cases.append(([], [], None, f'text shown at ({x}, {y}) where no text box has its baseline origin'))
+                continue
+            text_boxes.remove(candidates[0])
+            box = candidates[0]
+            fonts = {font for font, _ in segments}
+            if len(fonts) != 1:
+                continue         # font fallback inside one box: glyph ids of several fonts, not compared
+            glyphs = [g for _, gs in segments for g in gs]
+            # U+200B is inserted by the layout at inline boundaries and has no glyph (PANGO_GLYPH_EMPTY)
+            cases.append((cmaps[fonts.pop()], glyphs, box.text.replace('\u200b', ''), None))
+    return cases
+
+
+def py_decode(entries, glyphs):
+    table = {}
+    for glyph, units in entries:
+        table.setdefault(glyph, units)
+    decoded = []
+    for glyph in glyphs:
+        if glyph not in table:
+            return None, glyph
+        decoded += table[glyph]
+    return decoded, None
+
+
+def line_end_space(entries, glyphs, text):
+    """Known finding `line-end-space-glyph`: the text box at the end of a line lost its trailing spaces
+    (`remove_last_whitespace`) but its Pango layout, which is what is drawn, kept them."""
+    decoded, _ = py_decode(entries, glyphs)
+    units = scene.utf16_units(text)
+    return (decoded is not None and len(decoded) > len(units) and decoded[:len(units)] == units and
+            set(decoded[len(units):]) == {0x20})
+
+
+def tounicode_violation(html, exempt=True):
+    for entries, glyphs, text, note in tounicode_cases(html):
+        if note:
+            return note
+        decoded, missing = py_decode(entries, glyphs)
+        if decoded is None:
+            return f'glyph {missing:04x} of the text {text!r} has no entry in the ToUnicode CMap'
+        if exempt and line_end_space(entries, glyphs, text):
+            continue
+        if decoded != scene.utf16_units(text):
+            back = bytes(b for u in decoded for b in u.to_bytes(2, 'big')).decode('utf-16-be', 'replace')
+            return f'the glyphs shown for the text box {text!r} map back through ToUnicode to {back!r}'
+    return None
+
+
+# ---------------------------------------------------------------------------------------------------
+# transformation matrix (anchors.py gather_anchors + matrix.py) on mock boxes with Fractions
+
+def random_transform(rng):
+    def frac(top):
+        return Fraction(rng.randrange(-top * 4, top * 4), rng.choice([1, 2, 4, 3]))
+    def dim():
+        return (frac(30), '%') if rng.random() < 0.4 else (frac(60), 'px')
+    fns = []
+    for _ in range(rng.choice([1, 1, 2, 3, 4])):
+        roll = rng.random()
+        if roll < 0.4:
+            fns.append(('scale', (rng.choice([Fraction(0), Fraction(1), Fraction(-1), frac(3), Fraction(1, 2)]),
+                                  rng.choice([Fraction(1), frac(3), Fraction(2), Fraction(0)]))))
+        elif roll < 0.8:
+            fns.append(('translate', (dim(), dim())))
+        else:
+            fns.append(('matrix', tuple(frac(3) for _ in range(6))))
+    origin = rng.choice([((Fraction(50), '%'), (Fraction(50), '%')), (dim(), dim()),
+                         ((Fraction(0), 'px'), (Fraction(100), '%'))])
+    return fns, origin
+
+
+def real_matrix(lengths, fns, origin):
+    from weasyprint.anchors import gather_anchors
+    from weasyprint.css.properties import Dimension
+    box = geo_box(lengths, [(0, 0)] * 4)
+    computed = []
+    for name, args in fns:
+        if name == 'translate':
+            computed.append((name, tuple(Dimension(*d) for d in args)))
+        else:
+            computed.append((name, args))
+    box.style = {'transform': tuple(computed), 'transform_origin': tuple(Dimension(*d) for d in origin),
+                 'bookmark_level': 'none', 'bookmark_state': 'open', 'link': None, 'anchor': None,
+                 'appearance': 'none'}
+    box.element = None
+    box.bookmark_label = None
+    gather_anchors(box, {}, [], [], {})
+    matrix = box.transformation_matrix
+    return ' '.join(sx.atom(Fraction(v)) for v in (*matrix.values, matrix.determinant))
+
+
+def matrix_wire(lengths, fns, origin):
+    px, py, ml, mt, bt, br, bb, bl, pt, pr, pb, pl, width, height = lengths
+    bw, bh = width + pl + pr + bl + br, height + pt + pb + bt + bb
+    wire_fns = []
+    for name, args in fns:
+        if name == 'translate':
+            (xv, xu), (yv, yu) = args
+            wire_fns.append(['translate', xv, xu == '%', yv, yu == '%'])
+        else:
+            wire_fns.append([name, *args])
+    (oxv, oxu), (oyv, oyu) = origin
+    return [px + ml, py + mt, bw, bh], [oxv, oxu == '%', oyv, oyu == '%'], wire_fns
+
+
+def matrix_violation(lengths, fns, origin):
+    """css-transforms-1: the used matrix is T(origin) · F1 · … · Fn · T(-origin) acting on column vectors, i.e. a
+    point is moved to the origin's frame, transformed by Fn first … F1 last, and moved back."""
+    (bbx, bby, bw, bh), (oxv, oxp, oyv, oyp), wire_fns = matrix_wire(lengths, fns, origin)
+    ox = bbx + (bw * oxv / 100 if oxp else oxv)
+    oy = bby + (bh * oyv / 100 if oyp else oyv)
+
+    def transform(x, y):
+        x, y = x - ox, y - oy
+        for fn in reversed(wire_fns):
+            if fn[0] == 'scale':
+                x, y = x * fn[1], y * fn[2]
+            elif fn[0] == 'translate':
+                x, y = x + (bw * fn[1] / 100 if fn[2] else fn[1]), y + (bh * fn[3] / 100 if fn[4] else fn[3])
+            else:
+                a, b, c, d, e, f = fn[1:]
+                x, y = a * x + c * y + e, b * x + d * y + f
+        return x + ox, y + oy
+
+    got = docs.outcome(lambda: real_matrix(lengths, fns, origin))
+    if got.startswith('err:'):
+        return f'transformation matrix of {fns} raised {got}'
+    a, b, c, d, e, f, det = (Fraction(v) for v in got.split())
+    for x, y in ((Fraction(0), Fraction(0)), (Fraction(1), Fraction(0)), (Fraction(0), Fraction(1)), (ox, oy)):
+        have = (x * a + y * c + e, x * b + y * d + f)
+        if have != transform(x, y):
+            return (f'transform {fns} with origin {origin} on a {bw}x{bh} border box at ({bbx}, {bby}): the matrix '
+                    f'({a} {b} {c} {d} {e} {f}) maps ({x}, {y}) to {have}, css-transforms gives {transform(x, y)}')
+    if det != a * d - b * c:
+        return f'determinant {det} of matrix ({a} {b} {c} {d} {e} {f})'
+    return None
 
 
 def check_html(html, exempt=True):
@@ -325,6 +529,20 @@ def check_html(html, exempt=True):
     return None, seen
 
 
+def check_geometry(html):
+    """Geometry clauses on a rendered document (judge / search / replay). -> text | None"""
+    document = scene.render(html)
+    for index, page in enumerate(document.pages):
+        scene.export_page(page._page_box)
+        events = docs.outcome(lambda: scene.paint_page_geo(document, page))
+        if events.startswith('err:'):
+            return f'page {index}: painting raised {events}'
+        what = oracle.geometry_violation(page._page_box, events.split())
+        if what:
+            return f'page {index}: {what}'
+    return None
+
+
 def finding_still_there(html, finding_id):
     """A known finding is still present when the un-exempted oracle fails and names it."""
     what, seen = check_html(html, exempt=False)
@@ -334,7 +552,7 @@ def finding_still_there(html, finding_id):
 class C17(PropCheck):
     id = 'C17'
     extractors = (stack_kinds.generate,)
-    modules = ('WpModel.Props.C17', 'WpModel.Witness.C17')
+    modules = ('WpModel.Props.C17', 'WpModel.Props.C17Paint', 'WpModel.Props.C17Text', 'WpModel.Witness.C17')
     trusted_base = (
         'modelled, not verified: stacking.py (StackingContext.__init__/from_page/from_box, _dispatch, '
         '_dispatch_children) and the paint sequence of draw/__init__.py (draw_page, draw_stacking_context, '
@@ -346,6 +564,11 @@ class C17(PropCheck):
         'tied by exact direct calls with Fractions',
         'py/harness/c17_scene.py export_page: one abstract attribute per attribute read of the drawing code '
         '(style[...] / box.background / box.transformation_matrix / border widths / cell.empty)',
+        'modelled, not verified: layout_background_layer (ordinary boxes: painting area, clipped box), box_rectangle, '
+        'draw/border.py rounded_box (path), the text matrix / font size of draw_text, gather_anchors + matrix.py '
+        '(transformation matrix), the cmap recording of draw_first_line and the bfchar table of '
+        'build_fonts_dictionary, as Model/RoundedBox.lean, Drive/PaintGeo.lean, Model/Transform.lean, '
+        'Model/ToUnicode.lean',
         'py/harness/c17_scene.py display_list: interpretation of the uncompressed content stream (q/Q, rg, W, gs, cm, '
         'f, TJ, Do into opacity groups); a fill colour identifies element and role',
     )
@@ -370,6 +593,7 @@ class C17(PropCheck):
             'display list of Page.paint (fills and text shows with colour, clip depth, opacity groups, transforms) '
             'vs PaintOrder.drawPage; non-trivial = at least 8 items and one nested context')
         htmls = [BASE + body for body in CORPUS]
+        branches_seen = set()
         n_docs = run.n(260, 5000)
         render_errors = {}
         for index in range(n_docs + len(htmls)):
@@ -387,6 +611,8 @@ class C17(PropCheck):
                 document = scene.render(html)
             except Exception as exc:  # layout failures belong to C02; counted, not compared
                 render_errors[type(exc).__name__] = render_errors.get(type(exc).__name__, 0) + 1
+                run.extra.setdefault('render_error_examples', []).append(
+                    {'error': f'{type(exc).__name__}: {exc}'[:200], 'html': html[:3000]})
                 continue
             for page_index, page in enumerate(document.pages[:5]):
                 page_box = page._page_box
@@ -398,9 +624,13 @@ class C17(PropCheck):
                             tags=[f'ctx{min(n_ctx // 4 * 4, 40)}'] + sorted(used))
                 impl_paint = docs.outcome(lambda: scene.paint_page(document, page))
                 n_items = impl_paint.count(':') // 4
+                branches = oracle.branch_tags(attrs, kids, canvas)
+                branches_seen.update(branches)
                 sec_paint.add(sx.line('paint', attrs, canvas, kids), impl_paint, meta=meta,
-                              nontrivial=n_items >= 8 and n_ctx >= 3, tags=[f'items{min(n_items // 20 * 20, 200)}'])
+                              nontrivial=n_items >= 8 and n_ctx >= 3,
+                              tags=[f'items{min(n_items // 20 * 20, 200)}'] + branches)
         run.extra['render_errors_skipped'] = render_errors
+        run.extra['model_branches_never_hit'] = sorted(set(oracle.ALL_BRANCHES) - branches_seen)
 
         sec_mock = run.section(
             'mock-dispatch',
@@ -418,6 +648,71 @@ class C17(PropCheck):
             sec_mock.add(sx.line('frompage', attrs, kids), impl, meta={'specs': specs, 'signature': f'mock{case}'},
                          nontrivial=impl.count('(ctx') > 1 + len(specs),
                          tags=['adversarial' if adversarial else 'structured'])
+
+        sec_geo = run.section(
+            'scene-geometry',
+            'geometric display list of Page.paint on documents whose decorations are all modelled (four-sided '
+            'borders of independent widths, paddings, px / % / elliptical radii, background-clip, overflow, floats, '
+            'positioned and inline boxes, fixed-pitch font): every fill with its path, every clip path on the stack, '
+            'every text show with its origin and font size, vs PaintGeo.lean; numbers within 1e-4 are snapped to the '
+            "model's (counted as float_rounding); non-trivial = a curved path and an asymmetric border")
+        geo_lines, geo_impl, geo_meta = [], [], []
+        for index in range(run.n(150, 2000)):
+            sc = scene.Scene(rng, max_depth=rng.choice([1, 2, 2, 3]), features={'geo': True, 'grid_context': 0.3})
+            html = sc.document()
+            try:
+                document = scene.render(html)
+            except Exception as exc:
+                render_errors[type(exc).__name__] = render_errors.get(type(exc).__name__, 0) + 1
+                continue
+            for page_index, page in enumerate(document.pages[:2]):
+                page_box = page._page_box
+                attrs, kids, canvas = scene.export_page(page_box)
+                table = scene.geometry_table(page_box)
+                geo_lines.append(sx.line('paintgeo', attrs, canvas, kids, table))
+                geo_impl.append(docs.outcome(lambda: scene.paint_page_geo(document, page)))
+                geo_meta.append(({'html': html, 'page': page_index, 'geo': True,
+                                  'signature': f'geo{index}/{page_index}'}, sorted(sc.used)))
+        float_rounding = 0
+        from vlib import lean
+        for start in range(0, len(geo_lines), 500):
+            chunk = geo_lines[start:start + 500]
+            for offset, model_out in enumerate(lean.run_driver(self.driver, chunk)):
+                k = start + offset
+                canon, differed = scene.snap(geo_impl[k], model_out)
+                float_rounding += differed
+                meta, used = geo_meta[k]
+                sec_geo.add(geo_lines[k], canon, meta=meta,
+                            nontrivial='c(' in geo_impl[k] and 'border-asym' in used,
+                            tags=used + (['float-rounded'] if differed else []))
+        run.extra['float_rounding'] = float_rounding
+
+        sec_uni = run.section(
+            'tounicode',
+            'glyph ids of every text-showing operator of painted documents (accents, ligatures, punctuation, three '
+            'faces, two families, opacity groups) decoded through the ToUnicode CMap written by '
+            'build_fonts_dictionary vs ToUnicode.decode, against the text of the text box whose baseline origin '
+            'the text matrix has; non-trivial = a ligature or a non-ASCII character')
+        batch_sizes = [99, 100, 101, 150, 201, 250]
+        for index in range(run.n(60, 1000)):
+            many = batch_sizes[index % len(batch_sizes)] if index % 10 == 0 else None
+            html = text_document(rng, many)
+            try:
+                cases = tounicode_cases(html)
+            except Exception as exc:
+                render_errors[type(exc).__name__] = render_errors.get(type(exc).__name__, 0) + 1
+                continue
+            for k, (entries, glyphs, text, note) in enumerate(cases):
+                impl = note or sx.dumps(scene.utf16_units(text))
+                quirk = not note and line_end_space(entries, glyphs, text)
+                if quirk:       # known finding: compare what a reader decodes with the model's decoding
+                    impl = sx.dumps(py_decode(entries, glyphs)[0])
+                sec_uni.add(sx.line('tounicode', [[g, units] for g, units in entries], glyphs), impl,
+                            meta={'html': html, 'tounicode': True, 'signature': f'uni{index}/{k}'},
+                            nontrivial=bool(text) and (len(glyphs) != len(text) or not text.isascii()),
+                            tags=['ligature' if text and len(glyphs) < len(text) else 'one-to-one'] +
+                            (['line-end-space'] if quirk else []) +
+                            ([f'cmap>{len(entries) // 100 * 100}'] if len(entries) >= 100 else []))
 
         sec_round = run.section(
             'rounded-boxes',
@@ -457,6 +752,23 @@ class C17(PropCheck):
                                 'signature': f'radii{case}'},
                           nontrivial=any(rx[1] == '%' or ry[1] == '%' for rx, ry in corners))
 
+        sec_matrix = run.section(
+            'transform-matrix',
+            'gather_anchors on real boxes with Fraction geometry and computed transform lists (scale incl. 0 and '
+            'negative, translate px / %, matrix(), 1-4 functions, px / % origins): box.transformation_matrix and its '
+            'determinant vs Transform.transformationMatrix, exact; non-trivial = two or more functions or a % value')
+        for case in range(run.n(1500, 30000)):
+            lengths, _ = random_geo(rng, case % 5 == 0)
+            fns, origin = random_transform(rng)
+            out = docs.outcome(lambda: real_matrix(lengths, fns, origin))
+            rect, org, wire_fns = matrix_wire(lengths, fns, origin)
+            singular = out.endswith(' 0')
+            sec_matrix.add(sx.line('tmatrix', rect, org, wire_fns), out,
+                           meta={'lengths': lengths, 'fns': fns, 'origin': origin, 'signature': f'matrix{case}'},
+                           nontrivial=len(fns) >= 2 or any('%' in str(f) for f in fns),
+                           tags=[f'fns{len(fns)}', 'singular' if singular else 'regular'] +
+                           sorted({name for name, _ in fns}))
+
         sec_sort = run.section(
             'sort-z', 'StackingContext.__init__ on child contexts with random z-indexes (ties, negatives, zero, 10^15) '
             'vs splitZ/sortZ; non-trivial = two equal z among >= 3')
@@ -483,6 +795,12 @@ class C17(PropCheck):
             page = mock_page([tuple_spec(s) for s in meta['specs']])
             attrs, kids, _ = scene.export_page(page)
             return oracle.contexts_violation(attrs, kids, real_contexts(page))
+        if d['section'] == 'transform-matrix':
+            return matrix_violation(frac_list(meta['lengths']), meta['fns'], meta['origin'])
+        if d['section'] == 'tounicode':
+            return tounicode_violation(meta['html'])
+        if d['section'] == 'scene-geometry':
+            return check_geometry(meta['html'])
         if d['section'] in ('scene-contexts', 'scene-paint'):
             what, _ = check_html(meta['html'])
             return what
@@ -510,6 +828,28 @@ class C17(PropCheck):
                 found.append({'what': what, 'input': {'html': html}, 'signature': html[-80:]})
                 if len(found) >= 3:
                     return found
+        for case in range(60):
+            run.search_stats['evaluations'] += 1
+            html = text_document(run.rng, [None, 101, 201][case % 3])
+            try:
+                what = tounicode_violation(html)
+            except Exception:
+                continue
+            if what:
+                found.append({'what': what, 'input': {'html': html, 'tounicode': True}, 'signature': html[-80:]})
+                if len(found) >= 3:
+                    return found
+        for case in range(120):
+            run.search_stats['evaluations'] += 1
+            html = scene.Scene(run.rng, max_depth=1 + case % 3, features={'geo': True}).document()
+            try:
+                what = check_geometry(html)
+            except Exception:
+                continue
+            if what:
+                found.append({'what': what, 'input': {'html': html, 'geo': True}, 'signature': html[-80:]})
+                if len(found) >= 3:
+                    return found
         for case in range(3000):
             run.search_stats['evaluations'] += 1
             lengths, radii = random_geo(run.rng, case % 4 == 0)
@@ -530,16 +870,24 @@ class C17(PropCheck):
         return found
 
     def finding_replays(self):
-        return {fid: (lambda fid=fid, html=html: finding_still_there(BASE + html, fid))
-                for fid, html in FINDINGS.items()}
+        replays = {fid: (lambda fid=fid, html=html: finding_still_there(BASE + html, fid))
+                   for fid, html in FINDINGS.items() if html is not None}
+        replays['line-end-space-glyph'] = lambda: bool(tounicode_violation(LINE_END_HTML, exempt=False))
+        return replays
 
     def replay(self, data):
         inp = data.get('input', {})
         meta = inp.get('meta') if isinstance(inp.get('meta'), dict) else inp
+        if 'html' in meta and meta.get('tounicode'):
+            return tounicode_violation(meta['html'])
+        if 'html' in meta and meta.get('geo'):
+            return check_geometry(meta['html']) or check_html(meta['html'])[0]
         if 'html' in meta:
             return check_html(meta['html'])[0]
         if 'zs' in meta:
             return sort_violation(meta['zs'], real_sort(meta['zs']))
+        if 'fns' in meta:
+            return matrix_violation(frac_list(meta['lengths']), thaw_fns(meta['fns']), thaw_origin(meta['origin']))
         if 'call' in meta:
             return rounded_violation(frac_list(meta['lengths']), [tuple(frac_list(r)) for r in meta['radii']],
                                      meta['call'], frac_list(meta['args']))
@@ -571,32 +919,39 @@ FINDINGS = {
         'z-index:-1;background:#000008;color:#000009">inner</span></span>',
     'outline-escapes-overflow-clip':
         '<div style="overflow:hidden;background:#000004"><p style="outline:2px solid #00000b;color:#000009">x</p></div>',
+    'line-end-space-glyph': None,
     'clip-escaped-by-positioned-descendant':
         '<div style="position:absolute;clip:rect(0px,5px,5px,0px);background:#000004"><div style="position:relative;'
         'background:#000008;color:#000009">x</div></div>',
 }
 
+LINE_END_HTML = ('<style>body{font-size:10px}</style>'
+                 '<p style="width:60px">aaa <b>bbb</b> ccc ddd <b>eee</b> fff</p>')
+
 PROP = C17()
 
 MANIFEST = {
     'design_ref': 'DESIGN.md §4 C17',
-    'technique': 'Lean 4 theorems over a literal model of stacking.py and of the paint sequence of draw/__init__.py '
-                 '(every class test regenerated from the source each run); executable correspondence with the real '
-                 'StackingContext.from_page and with the display list interpreted from the real content stream of '
-                 'generated documents, plus the real dispatcher on mock box trees',
-    'text': 'Unbounded theorems (any tree, any z-indexes): the state-passing dispatcher (mutable lists, insert at a '
-            'remembered index, assert) equals a pure specification and its assert is unreachable; it loses and '
-            'duplicates no box and keeps tree order in every bucket; a box roots a real / positioned-auto / float / '
-            'atomic-inline context exactly under the CSS 2.1 9.9.1 conditions; child contexts are split by sign and '
-            'stably sorted; the paint list of a context is own decoration, negative contexts, block backgrounds, '
-            'floats, inline content, zero/auto, positive contexts, outlines, the overflow clip excluding its own '
-            'border; every item of a context carries its opacity group / transform / clip (subtree atomicity); on the '
-            'block / line / inline / atomic-inline grammar every background is painted exactly once per page and '
-            'never below a singular transform, under the explicit hypothesis that context roots are of a class painted '
-            'by point 2 or 6 (false for grid containers and table rows: known finding with Lean witness).',
-    'note': 'Trusted: Lean kernel, the class-test extractor, the export of a laid-out page to the abstract tree, the '
-            'content-stream interpreter. Not proved: paint-once for text items and for tables in flow, absence of the '
-            'draw_inline_level asserts (both exercised by the correspondence only). Geometry of the painted '
-            'rectangles, radii, glyphs/ToUnicode, images, collapsed borders are not modelled (search only). Four '
-            'known findings are listed in known_findings.txt.',
+    'technique': 'Lean 4 theorems over literal models of stacking.py, of the paint sequence of draw/__init__.py, of the '
+                 'rounded boxes / background areas / rounded-box paths, of the transformation matrix and of the '
+                 'glyph-to-text table behind ToUnicode (every class test regenerated from the source each run); '
+                 'executable correspondence with the real StackingContext.from_page, with the display list and the '
+                 'geometric display list (paths, clip stacks, text origins) interpreted from the real content stream of '
+                 'generated documents, with the written ToUnicode CMaps, and with direct calls on Fraction geometry',
+    'text': 'Unbounded theorems: the state-passing dispatcher equals a pure specification (assert unreachable), loses '
+            'and duplicates no box, keeps tree order in every bucket; context creation conditions; stable z-index '
+            'sort; the paint sequence of a context; every item carries the opacity groups, transforms and the clip '
+            'stack of its ancestors (overflow clip = padding box, not on the own border); for every item kind '
+            '(background, border, text, outline, column background, replaced content) and every page over the block / '
+            'line / inline / atomic-inline / table grammar the display list holds exactly the items due, none below a '
+            'singular transform, and raises nothing - under the explicit hypothesis that context roots are of a class '
+            'painted by point 2 or 6 (false for grid containers and table rows: known finding with Lean witnesses); '
+            'inner radius = max(0, outer - inset) per corner and axis, corner-overlap scaling makes adjacent radii '
+            'fit; transform-origin is a fixed point, determinant multiplicative; glyphs map back to the text when the '
+            'glyph-to-text relation is functional.',
+    'note': 'Trusted: Lean kernel, the class-test extractor, the export of a laid-out page (attributes, geometry), the '
+            'content-stream interpreter, the PDF-reader side of the ToUnicode check. Not modelled: rotate/skew '
+            'trigonometry, border side segments and dashed/double styles, outlines\' geometry, table-part painting '
+            'areas, collapsed borders, images and gradients, font embedding. Five known findings are listed in '
+            'known_findings.txt.',
 }
